@@ -7,7 +7,6 @@ PROPS = {}
 NOT_APPLICABLE = {
     "C03": "relational semantics of Insert/Update/Delete/Select::exec over histories: executors (BTreeMap<Vec<Value>,_>, HashSet<Vec<Value>>) plus the cfb container measured out of Kani's reach even on an in-memory container model (25 min / 10 GB for 2 rows); no loop-free kernel carries the property",
     "C05": "invariant over all reachable table states under Insert/Update::exec; same measured obstacle as C03 (the cell-validity conjunct is decided under C07)",
-    "C11": "stream-name packing builds Strings char by char from symbolic chars: measured 18-21 GB OOM for 1-2 symbolic chars and 50 GB in SAT conversion with concrete UTF-8 width; listing/contents/aliasing live in the cfb dependency",
     "C12": "Join::exec/Select::exec need the container and build Table/Column clones per result row; Select::exec of one 2-row table on a model container did not leave symbolic execution in 15 min / 8 GB",
 }
 
@@ -518,5 +517,25 @@ PROPS["C04"] = {
             "argument checks, the frame condition on everything else (rows, summary, saved file).",
     "bounds": "one call from an arbitrary flag state",
     "outside": "executors, create_table's catalogue inserts, snapshots of the whole package state",
+    "assumptions": list(__import__("vlib.mir_protocol", fromlist=["x"]).PROTOCOL_MODELS_DOC),
+}
+
+# ---------------------------------------------------------------- C11 (partial)
+PROPS["C11"] = {
+    "level": "model_checking", "engine": "mir-smt", "mir": True,
+    "technique": "symbolic execution of the MIR of streamname::to_b64 / from_b64 (all chars / all values) and of the stream "
+                 "entry points of Package (container as uninterpreted events) into SMT; z3/cvc5",
+    "claim": "Two kernels of the property only. (1) The 64-symbol alphabet of stream-name packing is a bijection: for every char, "
+             "to_b64 packs exactly [0-9A-Za-z._], into 0..63, from_b64 inverts it and to_b64 inverts from_b64 on 0..63; neither "
+             "panics. (2) read_stream / write_stream / remove_stream validate the name as a STREAM name before touching the "
+             "container, address the container only by the stream-style encoding of that name (so table streams are not "
+             "reachable), return invalid / unknown names as errors without a creating or removing call, and never panic on "
+             "these paths. The packing loops themselves (encode / decode build Strings char by char: 50 GB in Kani, loops in "
+             "MIR), Streams::next's filter, contents and aliasing under cfb's name comparison are outside.",
+    "note": "Trusted: MIR translator, models of char::is_ascii_* / char::from_u32 / Option::unwrap, protocol models, z3/cvc5. By "
+            "reading (not decided): a character in U+3800..U+4840 passes through encode unchanged and is expanded by decode, so "
+            "two accepted names can encode identically (streamname.rs).",
+    "bounds": "all Unicode scalar values; all 6-bit values; one stream call from an arbitrary flag state",
+    "outside": "encode/decode loops, is_valid's length rule, listing, contents, digital-signature streams, cfb",
     "assumptions": list(__import__("vlib.mir_protocol", fromlist=["x"]).PROTOCOL_MODELS_DOC),
 }
